@@ -1,5 +1,6 @@
 import VirVerif.Model.Hdc
 import VirVerif.Drv.Proto
+import VirVerif.Drv.Hier
 namespace VirVerif.Drv
 open VirVerif
 
@@ -8,7 +9,7 @@ def maskOfSel (n : Nat) (sel : List Nat) : String :=
   String.ofList a.toList
 
 /-- `select <limit> n v…` → `OK mask last warn` | `ERR …` -/
-def handleC02 : Handler := fun _ toks =>
+def handleC02 : Handler := fun st toks =>
   match toks with
   | "select" :: lim :: rest =>
     match takeFloats rest with
@@ -17,6 +18,46 @@ def handleC02 : Handler := fun _ toks =>
       | .ok r => some s!"OK {maskOfSel vals.length r.selected} {tokOfF r.last} {tokOfB r.warn}"
       | .error .emptySelection => some "ERR emptySelection"
       | .error .emptyArray => some "ERR emptyArray"
+    | none => some "ERR parse"
+  | "hdc" :: rest =>
+    -- hdc <model> <alpha> (<lo> <hi> <delta>)*n  → OK n_axes axes… mask fm warn
+    match parseModel rest with
+    | some (m, alpha :: rest') =>
+      let n := m.size
+      if rest'.length < 3 * n then some "ERR parse" else
+      let trip := (List.range n).map fun i =>
+        (fOfTok (rest'.getD (3*i) "0"), fOfTok (rest'.getD (3*i+1) "0"), fOfTok (rest'.getD (3*i+2) "0"))
+      let axes := trip.map fun (lo, hi, d) => gridAxis (if lo ≤ hi then lo else hi) (if lo ≤ hi then hi else lo) d
+      let deltas := trip.map fun (_, _, d) => d
+      let coords := (axes.map List.toArray).toArray
+      let probs := gridProbs 1.0 0.5 (condOf m) (cdfOf st m) coords deltas
+      if probs.any Float.isNaN then some "ERR nan-or-missingTable" else
+      let limit := 1.0 - fOfTok alpha
+      let axesOut := " ".intercalate (axes.map floatsOut)
+      match hdrRegion 0.0 probs limit with
+      | .ok (sel, probM, warn) =>
+        some s!"OK {axesOut} {maskOfSel probs.length sel} {tokOfF (fmOf probM deltas)} {tokOfB warn}"
+      | .error .emptySelection => some s!"ERR emptySelection {axesOut}"
+      | .error .emptyArray => some "ERR emptyArray"
+    | _ => some "ERR parse"
+  | "cellprobs" :: rest =>
+    -- cellprobs <model> (n axis…)*n deltas…  → OK k probs…
+    match parseModel rest with
+    | some (m, rest') =>
+      let n := m.size
+      let rec readAxes (k : Nat) (toks : List String) (acc : List (List Float)) : Option (List (List Float) × List String) :=
+        match k with
+        | 0 => some (acc.reverse, toks)
+        | k + 1 => match takeFloats toks with
+          | some (ax, r) => readAxes k r (ax :: acc)
+          | none => none
+      match readAxes n rest' [] with
+      | some (axes, rest2) =>
+        let deltas := (rest2.take n).map fOfTok
+        let coords := (axes.map List.toArray).toArray
+        let probs := gridProbs 1.0 0.5 (condOf m) (cdfOf st m) coords deltas
+        if probs.any Float.isNaN then some "ERR nan-or-missingTable" else some ("OK " ++ floatsOut probs)
+      | none => some "ERR parse"
     | none => some "ERR parse"
   | _ => none
 
